@@ -168,6 +168,10 @@ ATOMS = {
     "xabs":      ("XA({v})", ["XA"], _any),
     "xdeep":     ("XD({v})", ["XD"], _any),
     "mxref":     ("MX({v}) + MS.f({v})", ["MX"], _any),
+    # model-level references to a cells / the space INSIDE the focus tree: they stay bound to the static objects
+    # also when read from an ItemSpace
+    "mxin":      ("MXI({v})", ["MXI"], _any),
+    "msin":      ("MSI.f({v})", ["MSI"], _any),
     "spref":     ("SP.f({v})", ["SP"], _any),
     "spabs":     ("SPA.f({v})", ["SPA"], _any),
     "xin":       ("XI({v})", ["XI"], _static_only),      # auto ref to a sibling: relative -> not in ItemSpaces
@@ -416,6 +420,9 @@ def expand(case):
             need("Z")
             mrefs.append(["MX", "obj:Z.f"])
             mrefs.append(["MS", "obj:Z"])
+        elif n in ("MXI", "MSI"):
+            need("f")
+            mrefs.append([n, "obj:" + fhome + (".f" if n == "MXI" else "")])
         elif n in ("XI", "XIA"):
             need("f")
             fs["refs"].append([n, "obj", fhome + ".f", "absolute" if n == "XIA" else "auto"])
@@ -448,7 +455,7 @@ def expand(case):
     # members the formula under test does not need (removable while shrinking)
     needed = set()
     todo = list(ATOMS[A][1]) + list(CTX_NEEDS.get(C, []))
-    deps = {"f": ["r"], "h": ["f"], "k": ["f"], "XI": ["f"], "XIA": ["f"], "L2": ["L"], "XD": ["Z"], "MX": ["Z"], "X": ["Z"],
+    deps = {"f": ["r"], "h": ["f"], "k": ["f"], "XI": ["f"], "XIA": ["f"], "MXI": ["f"], "MSI": ["f"], "L2": ["L"], "XD": ["Z"], "MX": ["Z"], "X": ["Z"],
             "XA": ["Z"], "SP": ["Z"], "SPA": ["Z"]}
     while todo:
         n = todo.pop()
